@@ -78,18 +78,23 @@ theorem plan_independent {lock : Nat} {l0 P Q : List Ltx} (hP : PlanChain lock [
   (plan_reaches_truth hP hok hg).trans (plan_reaches_truth hQ hok hg).symm
 
 /-- **Plan independence for `Replica.Restore`** (compact the plan files, then
-    `DecodeDatabaseTo`): any two valid chains whose compaction decodes give the
-    same database, namely the L0 history applied in order.
-    Partial: growth-completeness of the *plan files themselves* (`hgP`) is a
-    hypothesis here; it follows from `growth_present` on the L0 chain but that
-    derivation is not yet mechanised.  Full statement = this one without `hgP`. -/
-theorem plan_restore_independent_partial {lock : Nat} {l0 P : List Ltx} {G : Ltx} {img : Db}
+    `DecodeDatabaseTo`): whenever the restore of a valid chain succeeds, the
+    database is the L0 history applied in order — hence the same for any two
+    valid chains to the same TXID, whichever mix of levels and snapshots they use. -/
+theorem plan_restore_eq_truth {lock : Nat} {l0 P : List Ltx} {G : Ltx} {img : Db}
     (hP : PlanChain lock [] l0 P) (hok : ∀ x ∈ l0, PagesOk lock x) (hg : GrowthComplete lock l0)
-    (hokP : ∀ x ∈ P, PagesOk lock x) (hgP : GrowthComplete lock P)
     (hc : compact lock P = .ok G) (hd : decodeDb lock G = .ok img) :
     img.Same (applyAll Db.empty l0) :=
   (decode_same_apply hd).trans
-    ((compact_equiv_core hc hokP hgP Db.empty (empty_lock_zero lock)).symm.trans (plan_reaches_truth hP hok hg))
+    ((compact_equiv_core hc (planChain_pagesOk hP (by simpa using hok)) (plan_growthComplete hP hok hg)
+        Db.empty (empty_lock_zero lock)).symm.trans (plan_reaches_truth hP hok hg))
+
+theorem plan_restore_independent {lock : Nat} {l0 P Q : List Ltx} {GP GQ : Ltx} {imgP imgQ : Db}
+    (hP : PlanChain lock [] l0 P) (hQ : PlanChain lock [] l0 Q)
+    (hok : ∀ x ∈ l0, PagesOk lock x) (hg : GrowthComplete lock l0)
+    (hcP : compact lock P = .ok GP) (hdP : decodeDb lock GP = .ok imgP)
+    (hcQ : compact lock Q = .ok GQ) (hdQ : decodeDb lock GQ = .ok imgQ) : imgP.Same imgQ :=
+  (plan_restore_eq_truth hP hok hg hcP hdP).trans (plan_restore_eq_truth hQ hok hg hcQ hdQ).symm
 
 /-- Non-vacuity of `PlanChain`: L0 files 1..3; plan A = [L1(1..2), L0(3)], plan B = [snapshot(1..3)]. -/
 example : PlanChain 100 [] [⟨1, 1, 2, 10, [(1, 5), (2, 6)]⟩, ⟨2, 2, 2, 20, [(2, 7)]⟩, ⟨3, 3, 3, 30, [(3, 8)]⟩]
